@@ -162,6 +162,15 @@ func generateInWatchMode(configArgs map[string]string) []string {
 	screen.Clear()
 	screen.MoveTopLeft()
 
+	// The directories of the referenced packages are watched even when the package does not
+	// validate: the error may well be in one of them, and fixing it there must trigger a regeneration.
+	var dirsToWatch []string
+	if packageInfo != nil {
+		for _, ref := range packageInfo.GetAllReferencedPackages() {
+			dirsToWatch = append(dirsToWatch, ref.PackageDir())
+		}
+	}
+
 	if err != nil {
 		log.Error().Msg(err.Error())
 	} else {
@@ -170,14 +179,8 @@ func generateInWatchMode(configArgs map[string]string) []string {
 			log.Warn().Msg(warning)
 		}
 		WriteSuccessfulSummary(packageInfo)
-
-		var dirsToWatch []string
-		for _, ref := range packageInfo.GetAllReferencedPackages() {
-			dirsToWatch = append(dirsToWatch, ref.PackageDir())
-		}
-		return dirsToWatch
 	}
-	return nil
+	return dirsToWatch
 }
 
 func WriteSuccessfulSummary(packageInfo *packaging.PackageInfo) {
